@@ -158,6 +158,9 @@ def main(argv=None):
     ap.add_argument("--verbose", "-v", action="store_true")
     a = ap.parse_args(argv)
     pid, tier = a.pid, a.tier
+    _TIER[0] = tier
+    if os.environ.get("VERIF_UPDATE_BASELINE"):
+        a.update_baseline = True
     t_start = time.time()
     timeout_ms = 60000 if tier == "quick" else 180000
 
@@ -460,21 +463,28 @@ def _baseline_path():
     return os.path.join(VERIF, "baseline", "obligations.json")
 
 
+_TIER = ["quick"]
+
+
+def _bkey(pid):
+    return pid if _TIER[0] == "quick" else "%s/%s" % (pid, _TIER[0])
+
+
 def load_baseline(pid):
     p = _baseline_path()
     if not os.path.exists(p):
         return None
     d = json.load(open(p))
-    if pid not in d:
+    if _bkey(pid) not in d:
         return None
-    return set(d[pid])
+    return set(d[_bkey(pid)])
 
 
 def save_baseline(pid, ids):
     p = _baseline_path()
     os.makedirs(os.path.dirname(p), exist_ok=True)
     d = json.load(open(p)) if os.path.exists(p) else {}
-    d[pid] = ids
+    d[_bkey(pid)] = ids
     with open(p, "w") as f:
         json.dump(d, f, indent=0, sort_keys=True)
 
